@@ -205,7 +205,7 @@ def run(ctx):
         if bad or len(removal) != 1:
             ctx.add('POOL', None, 'who-releases(%s)' % tree, 'violation',
                     ('; '.join('%s releases %s slots depending on the path (through %s); every removal must release exactly one' % (f.name, sorted(S[f.path]), sorted(x.name for x in releasers)) for f in bad[:2])) if bad else
-                    'slots of %s are released by %s; expected exactly one removal transaction (a function that releases exactly one slot on every path) besides clear, found %s' % (tree, sorted(f.name for f in releasers), sorted(f.name for f in removal)), PROPS_POOL)
+                    'slots of %s are released by %s; expected exactly one removal transaction (a function that releases exactly one slot on every path) besides clear, found %s' % (tree, sorted(f.name for f in releasers), sorted(f.name for f in removal)) + ' (clear, which walks the tail of the free list as its queue, cannot be examined either)', PROPS_POOL + ['C12'])
             continue
         rem = removal[0]
         ctx.add('POOL', rem, 'who-releases', 'ok', 'only the removal transaction (%s, exactly one slot on every path) and clear release slots (release calls in %s)' % (rem.name, sorted(f.name for f in releasers)), PROPS_POOL, rem.line)
